@@ -25,8 +25,8 @@ class SkippableError(ValueError):
 class ItemIter:
   """Harness iterator of producer p: yields (p, 1..n), raises at index fail_at, returns p."""
 
-  def __init__(self, p, n, fail_at=0, exc=ProducerError):
-    self.p, self.n, self.fail_at, self.exc = p, n, fail_at, exc
+  def __init__(self, p, n, fail_at=0, exc=ProducerError, returns=True):
+    self.p, self.n, self.fail_at, self.exc, self.returns = p, n, fail_at, exc, returns
     self.i = 0
     self.busy = False
 
@@ -43,11 +43,16 @@ class ItemIter:
         self.i += 1 if self.exc is SkippableError else 0
         raise self.exc(f'{self.p} fails at {self.fail_at}')
       if self.i == self.n:
-        raise StopIteration(self.p)
+        if self.returns:
+          raise StopIteration(self.p)
+        raise StopIteration()
       self.i += 1
       return (self.p, self.i)
     finally:
       self.busy = False
+
+
+TSI_INSTANCES = []
 
 
 @contextlib.contextmanager
@@ -65,10 +70,19 @@ def installed():
   iter_utils.queue = sched.queue
   iter_utils.futures = sched.futures
   iter_utils.IteratorQueue.enqueue_done = property(_done)
+  orig_tsi_init = iter_utils._ThreadSafeIterator.__init__
+
+  def _tsi_init(self, iterable):
+    orig_tsi_init(self, iterable)
+    TSI_INSTANCES.append(self)
+
+  iter_utils._ThreadSafeIterator.__init__ = _tsi_init
+  del TSI_INSTANCES[:]
   try:
     yield iter_utils
   finally:
     (iter_utils.threading, iter_utils.queue, iter_utils.futures, iter_utils.IteratorQueue.enqueue_done) = saved
+    iter_utils._ThreadSafeIterator.__init__ = orig_tsi_init
 
 
 @dc.dataclass
@@ -83,6 +97,7 @@ class Outcome:
   states: list
   steps: int
   stopper_result: dict[str, Any]
+  pool_alive_at_end: dict[str, list] = dc.field(default_factory=dict)   # consumer -> pool workers still alive when it ended
 
   def summary(self):
     return dict(received=self.received, ended=self.ended, prod=self.prod_result,
@@ -90,7 +105,7 @@ class Outcome:
                 blocked=self.blocked, steps=self.steps)
 
 
-def project(q, sch, received, ended):
+def project(q, sch, received, ended, extra=None):
   """Abstract state of the real queue in the vocabulary of IterQueue.tla."""
   def owner(lock):
     o = lock.owner
@@ -105,6 +120,7 @@ def project(q, sch, received, ended):
       exc=q._exception is not None, exhausted=q._exhausted, returned=list(q._returned),
       received={c: [list(x) for x in v] for c, v in received.items()},
       ended={c: v for c, v in ended.items()},
+      **(extra() if extra else dict(ownL='none', srcIdx=0, cnt={c: 0 for c in received})),
   )
 
 
@@ -119,9 +135,11 @@ def run_config(cfg: dict, policy, *, record_states=False, max_steps=5000, timeou
     prod_result, stopper_result = {}, {}
     qbox = {}
 
+    pool_state = {}
+
     def on_state(s):
       if record_states and 'q' in qbox:
-        states.append(project(qbox['q'], s, received, ended))
+        states.append(project(qbox['q'], s, received, ended, qbox.get('extra')))
 
     sch = sched.Scheduler(policy, max_steps=max_steps, on_state=on_state)
     sched.set_active(sch)
@@ -129,10 +147,38 @@ def run_config(cfg: dict, policy, *, record_states=False, max_steps=5000, timeou
       declared = cfg.get('declared')
       if declared is None:
         declared = len(cfg['prods'])
-      q = iter_utils.IteratorQueue(cfg.get('cap', 0), name='vq',
-                                   timeout=(timeout_value if cfg.get('timeout') else None),
-                                   ignore_error=bool(cfg.get('ignore_error')), max_enqueuer=declared)
+      piter = bool(cfg.get('shared')) or any(v[0] == 'diter' for v in cfg['cons'].values())
+      extra_box = {}
+      if piter:
+        # the real parallel-iteration entry points: pool workers run enqueue_from_iterator
+        pool = iter_utils.futures.ThreadPoolExecutor(max_workers=len(cfg['prods']), thread_name_prefix='p#')
+        exc_type = SkippableError if cfg.get('ignore_error') else ProducerError
+        if cfg.get('shared'):
+          n_src, fail_src = cfg['shared']
+          src = ItemIter('src', n_src, fail_src, exc_type, returns=False)
+          q = iter_utils.piter_fn(lambda it: map(_ident, it), input_iterable=src, thread_pool=pool,
+                                  parallism=len(cfg['prods']), buffer_size=cfg.get('cap', 0))
+        else:
+          src = None
+          its = [ItemIter(p_, n_, f_, exc_type) for p_, (n_, f_) in cfg['prods'].items()]
+          q = iter_utils.piter_multiplex(its, pool, buffer_size=cfg.get('cap', 0))
+        q.ignore_error = bool(cfg.get('ignore_error'))
+        deq = {}
+
+        def extra():
+          tsi = TSI_INSTANCES[-1] if TSI_INSTANCES and src is not None else None
+          o = getattr(tsi._lock, 'owner', None) if tsi is not None else None
+          return dict(ownL='none' if o is None else getattr(o, 'name', str(o)),
+                      srcIdx=src.i if src is not None else 0,
+                      cnt={c: (deq[c]._cnt if c in deq else 0) for c in cfg['cons']},
+                      workers_alive=pool.workers_alive())
+        extra_box['f'] = extra
+      else:
+        q = iter_utils.IteratorQueue(cfg.get('cap', 0), name='vq',
+                                     timeout=(timeout_value if cfg.get('timeout') else None),
+                                     ignore_error=bool(cfg.get('ignore_error')), max_enqueuer=declared)
       qbox['q'] = q
+      qbox['extra'] = extra_box.get('f')
 
       def producer(p, n, fail_at):
         def body():
@@ -146,7 +192,37 @@ def run_config(cfg: dict, policy, *, record_states=False, max_steps=5000, timeou
             prod_result[p] = f'raised:{type(e).__name__}'
         return body
 
+      def diter_consumer(c, steps):
+        def body():
+          # DequeueIterator(num_steps) wrapped by a real MultiplexIterator (its __next__ / maybe_stop)
+          d = q.dequeue_as_iterator(num_steps=steps)
+          deq[c] = d
+          mi = iter_utils.MultiplexIterator.__new__(iter_utils.MultiplexIterator)
+          mi._name, mi._iterator, mi._thread_pool = 'mi', d, pool
+          try:
+            while True:
+              v = next(mi)
+              received[c].append(v)
+          except StopIteration as e:
+            if steps >= 0 and d._cnt == steps:
+              ended[c] = ['stopped']
+            else:
+              ended[c] = ['stop', list(e.args)]
+          except sched.Aborted:
+            raise
+          except BaseException as e:  # pylint: disable=broad-exception-caught
+            if e is q._exception:
+              ended[c] = ['exc', type(e).__name__]
+            elif isinstance(e, TimeoutError):
+              ended[c] = ['timeout']
+            else:
+              ended[c] = ['exc', type(e).__name__]
+          pool_state[c] = pool.workers_alive()
+        return body
+
       def consumer(c, spec):
+        if spec[0] == 'diter':
+          return diter_consumer(c, spec[1])
         def body():
           try:
             while True:
@@ -183,8 +259,12 @@ def run_config(cfg: dict, policy, *, record_states=False, max_steps=5000, timeou
             stopper_result[s] = 'assertfail'
         return body
 
-      for p, (n, fail_at) in cfg['prods'].items():
-        sch.spawn(p, producer(p, n, fail_at))
+      if not piter:
+        for p, (n, fail_at) in cfg['prods'].items():
+          sch.spawn(p, producer(p, n, fail_at))
+      else:
+        for w in pool._workers:
+          prod_result[w.name] = 'pool-worker'
       for c, spec in cfg['cons'].items():
         sch.spawn(c, consumer(c, spec))
       for s, with_exc in (cfg.get('stoppers') or {}).items():
@@ -192,9 +272,13 @@ def run_config(cfg: dict, policy, *, record_states=False, max_steps=5000, timeou
       failure = sch.run(timeout=30.0)
       return Outcome(received=received, batches=batches, ended=ended, prod_result=prod_result, failure=failure,
                      blocked=getattr(sch, 'blocked_at_end', {}), trace=list(sch.trace), states=states,
-                     steps=sch.steps, stopper_result=stopper_result)
+                     steps=sch.steps, stopper_result=stopper_result, pool_alive_at_end=pool_state)
     finally:
       sched.set_active(None)
+
+
+def _ident(x):
+  return x
 
 
 def to_tlc(cfg, fixes=None):
@@ -202,4 +286,4 @@ def to_tlc(cfg, fixes=None):
   return qconfig.make(cfg['prods'], cfg['cons'], cap=cfg.get('cap', 0), stoppers=cfg.get('stoppers'),
                       declared=cfg.get('declared'), timeout=bool(cfg.get('timeout')),
                       ignore_error=bool(cfg.get('ignore_error')),
-                      fixes=qconfig.ALL_FIXES if fixes is None else fixes)
+                      fixes=qconfig.ALL_FIXES if fixes is None else fixes, shared=cfg.get('shared'))
